@@ -51,4 +51,16 @@ PROPS = {
                         "the structure-level theorem binary_find = linear_find on renumbered structures is not yet proved end to end: the generic "
                         "binary-search theorem is, and the equality is checked on every explored structure and query"],
     },
+    "C12": {
+        "translators": ["t2b"],
+        "count": {"quick": 150, "thorough": 1500},
+        "rule": "exhaustive: every expression tree of depth <= 2 (with an outer negation, depth 3) over a 10-term alphabet (model, chain, residue range, "
+                "insertion code, alternate location, serial range, element, backbone, side chain, hetero) on one fixed structure, at the PDB and Residue "
+                "levels (all five levels in the thorough tier, where the binary layer is the full 20 x 20 square); random: random structures (atoms with and "
+                "without element, duplicate ids, empty containers) x random trees to depth 7 over all 22 term kinds x a random level and element.  For each "
+                "case find and find_mut are compared with the declarative Kleene filter (property) and find with the model's pruned pipeline "
+                "(correspondence).  non-trivial = non-empty result; distinct = distinct case line",
+        "assumptions": ["float terms use values on a 1/16 grid, where a - b is exact, so |a-b| < EPSILON is decided on exact values",
+                        "amino-acid and backbone name tables are taken from the regenerated Gen/NameTables.v (reference data, not part of the property)"],
+    },
 }
